@@ -837,7 +837,7 @@ def run_type(h, w, t):
 
 
 def check_union_order(h, slots, order):
-    for (canon, chan, vk), per in sorted(order.items()):
+    for (canon, chan, vk), per in sorted(order.items(), key=lambda kv: (len(kv[0][0]), kv[0])):  # the simplest Unions first
         if len(per) < 2:
             continue
         outs = {name: a for name, (a, _) in per.items()}
